@@ -10,6 +10,7 @@ CONSTANTS
   Amounts <- AM_1
   MaxAdd = 5
   MaxCollect = 2
+  MaxShutdown = 0
   AllOrders = FALSE
   Dev = {"delta-fastpath-start-at-sdk-start", "dup-handle-orphans-storage", "multi-view-last-wins", "explicit-limit-lost-after-first-interval", "merge-overwrites-overflow-at-default-limit"}
   Hist = FALSE
